@@ -896,13 +896,16 @@ Section Vertex.
     - (* != *) split; [exact (f_exclude_det init w k Hi H)|].
       eapply f_exclude_sup; eauto. rewrite (holds_not_equals re v w Wv Wt) in Hp.
       rewrite (eq_t_eqT v w Wv Wt). now destruct (eqT v w).
-    - (* < *) invb H as r Hr. apply range_with_end_ok in Hr. destruct Hr as [-> _].
+    - (* < *) destruct (holds_cmp_true re LessThan OpLt v w eq_refl Wv Wt Hp) as (_ & Nw & _).
+      rewrite Nw, andb_false_r in H. invb H as r Hr. apply range_with_end_ok in Hr. destruct Hr as [-> _].
       eapply (INT LessThan); eauto. reflexivity.
-    - (* <= *) invb H as r Hr. apply range_with_end_ok in Hr. destruct Hr as [-> _].
+    - (* <= *) destruct (holds_cmp_true re LessThanOrEqual OpLe v w eq_refl Wv Wt Hp) as (_ & Nw & _).
+      rewrite Nw, andb_false_r in H. invb H as r Hr. apply range_with_end_ok in Hr. destruct Hr as [-> _].
       eapply (INT LessThanOrEqual); eauto. reflexivity.
-    - (* > *) invb H as r Hr. apply range_with_start_ok in Hr. destruct Hr as [-> _].
+    - (* > *) destruct (holds_cmp_true re GreaterThan OpGt v w eq_refl Wv Wt Hp) as (_ & Nw & _).
+      rewrite Nw, andb_false_r in H. invb H as r Hr. apply range_with_start_ok in Hr. destruct Hr as [-> _].
       eapply (INT GreaterThan); eauto. reflexivity.
-    - (* one_of *) destruct (holds_one_of_shape re v w Hp) as [l ->].
+    - (* one_of *) destruct (holds_one_of_shape re v w Hp) as [l ->]. cbn [fv_is_null] in H. rewrite andb_false_r in H.
       eapply (INT OneOf); eauto. reflexivity.
   Qed.
 
@@ -977,15 +980,49 @@ Section Vertex.
     destruct op; try discriminate; cbn [cand_from_op].
     - apply I. unfold f_cand_ok. cbn. exact Ww.
     - destruct (f_exclude_total init w) as (k & E & Hk). eauto.
-    - specialize (Hc eq_refl). rewrite RE by (cbn; now rewrite Hc). cbn [bind].
+    - specialize (Hc eq_refl). rewrite Hc, andb_false_r. rewrite RE by (cbn; now rewrite Hc). cbn [bind].
       apply I. apply cand_ok_range; cbn; auto. now rewrite Hc.
-    - specialize (Hc eq_refl). rewrite RE by (cbn; now rewrite Hc). cbn [bind].
+    - specialize (Hc eq_refl). rewrite Hc, andb_false_r. rewrite RE by (cbn; now rewrite Hc). cbn [bind].
       apply I. apply cand_ok_range; cbn; auto. now rewrite Hc.
-    - specialize (Hc eq_refl). rewrite RS by (cbn; now rewrite Hc). cbn [bind].
+    - specialize (Hc eq_refl). rewrite Hc, andb_false_r. rewrite RS by (cbn; now rewrite Hc). cbn [bind].
       apply I. apply cand_ok_range; cbn; auto. now rewrite Hc.
-    - specialize (Hc eq_refl). rewrite RE by (cbn; now rewrite Hc). cbn [bind].
+    - specialize (Hc eq_refl). rewrite Hc, andb_false_r. rewrite RE by (cbn; now rewrite Hc). cbn [bind].
       apply I. apply cand_ok_range; cbn; auto. now rewrite Hc.
-    - destruct (Ho eq_refl) as [l ->]. apply I. unfold f_cand_ok. cbn. exact Ww.
+    - destruct (Ho eq_refl) as [l ->]. cbn [fv_is_null]. rewrite andb_false_r. apply I. unfold f_cand_ok. cbn. exact Ww.
+  Qed.
+
+  (* F17 repaired: compute_candidate_from_operation answers a null tag value with Impossible for the
+     operators that bound a range with it or read it as a list ... *)
+  Theorem cand_from_op_null_impossible op init :
+    is_cmp_op op = true \/ op = OneOf -> cand_from_op true op init (TSome Null) = Ok Impossible.
+  Proof. intros [H| ->]; [destruct op; try discriminate H|]; reflexivity. Qed.
+
+  (* ... which is a sound candidate: against a null operand these filters hold for no value *)
+  Theorem null_tag_filter_fails op v :
+    is_cmp_op op = true \/ op = OneOf -> filter_passes re op true v (Some (TSome Null)) = false.
+  Proof.
+    intros H. unfold filter_passes. cbn [negb].
+    destruct H as [H| ->]; [destruct op; try discriminate H|]; cbn [opk_unary]; unfold holds; cbn.
+    all: destruct v; reflexivity.
+  Qed.
+
+  (* so compute_candidate_from_operation (nullable_ranges = true) cannot panic on any well-typed tag
+     value (a one_of operand is a list or null) *)
+  Theorem cand_from_op_total_true op init w :
+    f_cand_ok init = true -> wf w = true -> dyn_supported_op op = true ->
+    (op = OneOf -> w = Null \/ exists l, w = List l) ->
+    exists k, cand_from_op true op init (TSome w) = Ok k /\ f_cand_ok k = true.
+  Proof.
+    intros Hi Ww Hs Ho. destruct (fv_is_null w) eqn:Nw.
+    - destruct w; try discriminate Nw.
+      destruct (is_cmp_op op) eqn:C.
+      + exists Impossible. split; [apply cand_from_op_null_impossible; now left|reflexivity].
+      + destruct op; try discriminate; cbn [cand_from_op andb fv_is_null].
+        * apply f_intersect_total; [assumption|reflexivity].
+        * destruct (f_exclude_total init Null) as (k & E & Hk). eauto.
+        * exists Impossible. split; reflexivity.
+    - apply cand_from_op_total; auto.
+      intros E. destruct (Ho E) as [->|H]; [discriminate|assumption].
   Qed.
 
   (* ---- binding / non-binding ---- *)
@@ -1657,15 +1694,15 @@ Theorem dynamic_hint_ge_tag_refuted_query :
       [[("id", U64 1); ("o2", U64 2)]; [("id", U64 1); ("o2", U64 1)]; [("id", U64 2); ("o2", U64 2)]].
 Proof. vm_compute. repeat split; reflexivity. Qed.
 
-(* ---- F17: a null tag value panics in Range::with_end / with_start, or in as_slice() for one_of ---- *)
-(* full statement (FALSE): forall dv c, (ctx c has every vertex / fold / imported tag dv refers to) ->
-     exists k, dyn_resolve q g dv c = Ok k                                                     *)
-Theorem dynamic_hint_null_tag_refuted_lemma :
-  (exists s, cand_from_op true LessThan All (TSome Null) = Panic s) /\
-  (exists s, cand_from_op true GreaterThan All (TSome Null) = Panic s) /\
-  (exists s, cand_from_op true OneOf All (TSome Null) = Panic s) /\
-  k_null_tag_hint LessThan Null = true /\ k_null_tag_hint OneOf Null = true.
-Proof. repeat split; eexists; reflexivity. Qed.
+(* ---- F17 (repaired in /repo 9aed43b): a null tag value used to panic in Range::with_end / with_start,
+   or in as_slice() for one_of; compute_candidate_from_operation now yields Impossible.  Regression
+   statements on the former witnesses. ---- *)
+Theorem dynamic_hint_null_tag_regression_lemma :
+  cand_from_op true LessThan All (TSome Null) = Ok Impossible /\
+  cand_from_op true GreaterThan All (TSome Null) = Ok Impossible /\
+  cand_from_op true GreaterThanOrEqual All (TSome Null) = Ok Impossible /\
+  cand_from_op true OneOf All (TSome Null) = Ok Impossible.
+Proof. repeat split; reflexivity. Qed.
 
 (*   query { Thing { score @tag(name: "t") id @output link { score @filter(op: "<", value: ["%t"]) @output(name: "o2") } } }
    on a dataset where the tagged vertex has no score *)
@@ -1676,7 +1713,7 @@ Definition rq_f17 : raw_query :=
            [mkE 1 1 2 "link" [] false None] []
            [("id", mkCF 1 "id" ty_int_nn); ("o2", mkCF 2 "score" ty_int)]) [].
 
-Theorem dynamic_hint_null_tag_refuted_query :
+Theorem dynamic_hint_null_tag_regression_query :
   let q := q_of rq_f17 in
   let vi := mkVI false 1 2 (FExcl 2) false false in
   let dv := mkDV 1 (FRContext (mkCF 1 "score" ty_int)) LessThan All in
@@ -1684,7 +1721,7 @@ Theorem dynamic_hint_null_tag_refuted_query :
     resolve_edge_info_destination q 1 2 1 = Ok vi /\
     dynamically_required q [] vi "score" = Ok (Some dv) /\
     (* ds_f10's vertices have no score: the tag value is null *)
-    dyn_resolve q (graph_of_dataset ds_f10) dv ctx_f10 = Panic "candidates.rs:assert cannot bound range with null value".
+    dyn_resolve q (graph_of_dataset ds_f10) dv ctx_f10 = Ok Impossible.
 Proof. vm_compute. repeat split; reflexivity. Qed.
 
 (* outside K-null-tag-hint resolving never panics (one_of operands are lists or null by typing) *)
@@ -1698,6 +1735,13 @@ Proof.
   - intros Hc. rewrite Hc in Hk. cbn in Hk. now rewrite andb_true_r in Hk.
   - intros ->. destruct (Ho eq_refl) as [->|H]; [discriminate|assumption].
 Qed.
+(* compute_candidate_from_operation (every context-field or imported tag) never panics on a well-typed
+   tag value: no class is excluded any more *)
+Theorem dynamic_hint_no_panic op init w :
+  f_cand_ok init = true -> wf w = true -> dyn_supported_op op = true ->
+  (op = OneOf -> w = Null \/ exists l, w = List l) ->
+  exists k, cand_from_op true op init (TSome w) = Ok k /\ f_cand_ok k = true.
+Proof. exact (cand_from_op_total_true op init w). Qed.
 Theorem dynamic_hint_no_panic_none nr op init :
   dyn_supported_op op = true -> cand_from_op nr op init TNone = Ok init.
 Proof. destruct op; try discriminate; reflexivity. Qed.
